@@ -3,35 +3,77 @@
 from __future__ import annotations
 
 import ast
+import copy
 import struct
 
-from ..model import AnalysisError, chain, unparse
+from ..cfg import CFG, dominators
+from ..kinds import reach
+from ..model import AnalysisError, unparse
 from ..report import RuleResult
 from ..textile import FormatDoc
+from ._c08_flow import Locals, NdvHome, call_name, eq_other_side, fold, is_isnan_of, is_nan, masked_stores
 
 
 def f32(x: float) -> float:
     return struct.unpack("f", struct.pack("f", float(x)))[0]
 
 
-def _const(p, mod, name):
-    r = p.resolve_name(mod, name)
-    if r and r[0] == "assign":
-        try:
-            return ast.literal_eval(r[1][1]), r[1][0]
-        except Exception:
-            return None, None
-    return None, None
-
-
-def _single_return(K, name):
+def _getter_returns(ctx, K, name):
+    """(returned expressions with private helpers expanded and temporaries replaced by their definitions, getter) of a property."""
     m = K.lookup(name)
     if not m or m[1] != "prop" or m[2].getter is None:
-        return None, None
-    rets = [r for r in ast.walk(m[2].getter.node) if isinstance(r, ast.Return)]
-    if len(rets) != 1:
-        return None, m[2].getter
-    return rets[0].value, m[2].getter
+        return [], None
+    g = m[2].getter
+    v = ctx.view(g, consts=False)  # names of constants are kept: they are resolved to their home assignment
+    L = Locals(v.node)
+    return [L.expand(r.value) for r in ast.walk(v.node) if isinstance(r, ast.Return) and r.value is not None], g
+
+
+def _is_self_attr(fn, expr, attr) -> bool:
+    return isinstance(expr, ast.Attribute) and expr.attr == attr and isinstance(expr.value, ast.Name) and expr.value.id == (fn.self_name or "self")
+
+
+def _literals_in(p, mod, fn_node, expr):
+    """`expr` with names bound once at module level to a literal (number, string, or a set / list / tuple of them) replaced by the
+    literal — whatever the constant is called (the normalised view already does this for most names)."""
+    bound = {x.id for x in ast.walk(fn_node) if isinstance(x, ast.Name) and isinstance(x.ctx, ast.Store)} | {a.arg for a in ast.walk(fn_node) if isinstance(a, ast.arg)}
+
+    def lit(v):
+        return isinstance(v, ast.Constant) or (isinstance(v, (ast.Set, ast.List, ast.Tuple)) and all(isinstance(e, ast.Constant) for e in v.elts))
+
+    class R(ast.NodeTransformer):
+        def visit_Name(self, n):
+            if isinstance(n.ctx, ast.Load) and n.id not in bound:
+                r = p.resolve_name(mod, n.id)
+                if r and r[0] == "assign" and lit(r[1][1]):
+                    return ast.copy_location(copy.deepcopy(r[1][1]), n)
+            return n
+
+    return R().visit(copy.deepcopy(expr))
+
+
+def _raise_guards(p, mod, fn_node) -> list:
+    """For every `raise` of the function: the conditions (temporaries expanded, hoisted literals back in place) of the tests that dominate it."""
+    g = CFG(fn_node)
+    dom = dominators(g)
+    L = Locals(fn_node)
+    out = []
+    for n in g.nodes:
+        if n.kind == "raise" and n in dom:
+            out.append([_literals_in(p, mod, fn_node, L.expand(t.ast)) for t in dom[n] if t.kind == "test" and t is not n])
+    return out
+
+
+def _cmp_sides(test, ops):
+    """Direct operands of the comparisons (with one of `ops`) inside a condition."""
+    for c in ast.walk(test):
+        if isinstance(c, ast.Compare) and len(c.ops) == 1 and isinstance(c.ops[0], ops):
+            yield c.left
+            yield c.comparators[0]
+
+
+def _is_int_const(e, value) -> bool:
+    return isinstance(e, ast.Constant) and isinstance(e.value, int) and not isinstance(e.value, bool) and e.value == value
 
 
 def rule_ndv(ctx) -> RuleResult:
@@ -48,48 +90,47 @@ def rule_ndv(ctx) -> RuleResult:
     shared = p.modules.get("geoh5py.shared")
     if shared is None:
         raise AnalysisError("anchor module geoh5py.shared not found")
-    fl, _ = _const(p, shared, "FLOAT_NDV")
-    it, _ = _const(p, shared, "INTEGER_NDV")
+    home = NdvHome(p, shared)
+    fl = home.value("FLOAT_NDV")
+    it = home.value("INTEGER_NDV")
     ok = fl is not None and f32(fl) == f32(float(doc["Float"]))
     res.inst(f"FLOAT_NDV {fl} == documented {doc['Float']} as float32", ok=ok)
     if not ok:
         res.find("shared", "FLOAT_NDV", f"FLOAT_NDV = {fl} differs from the documented {doc['Float']}", shared.relpath + ":1",
                  "NaN is written as a value Geoscience ANALYST does not treat as no-data")
-    ok = it is not None and int(it) == int(doc["Integer"])
+    ok = it is not None and int(it) == it and int(it) == int(doc["Integer"])
     res.inst(f"INTEGER_NDV {it} == documented {doc['Integer']}", ok=ok)
     if not ok:
         res.find("shared", "INTEGER_NDV", f"INTEGER_NDV = {it} differs from the documented {doc['Integer']}", shared.relpath + ":1",
                  "integer gaps are written with a code the format does not define")
     for cname, const in (("FloatData", "FLOAT_NDV"), ("IntegerData", "INTEGER_NDV")):
         K = p.cls(cname)
-        v, g = _single_return(K, "ndv")
-        r = p.resolve_name(g.module, unparse(v)) if v is not None and isinstance(v, ast.Name) else None
-        ok = isinstance(v, ast.Name) and v.id == const and r and r[0] == "assign" and r[1][0] is shared
+        rets, g = _getter_returns(ctx, K, "ndv")
+        ok = bool(rets) and all(home.which(g.module, v) == const for v in rets)
         res.inst(f"{cname}.ndv returns shared.{const}", ok=bool(ok))
         if not ok:
-            res.find(cname, "ndv", f"ndv returns {unparse(v)}", g.where if g else K.where, f"{cname} writes gaps with a code other than shared.{const}")
+            res.find(cname, "ndv", f"ndv returns {unparse(rets[0]) if rets else ''}", g.where if g else K.where, f"{cname} writes gaps with a code other than shared.{const}")
     K = p.cls("IntegerData")
-    v, g = _single_return(K, "nan_value")
-    ok = v is not None and unparse(v) in ("self.ndv", "INTEGER_NDV")
-    res.inst(f"IntegerData.nan_value -> {unparse(v)}", ok=ok)
+    rets, g = _getter_returns(ctx, K, "nan_value")
+    ok = bool(rets) and all(_is_self_attr(g, v, "ndv") or home.which(g.module, v) == "INTEGER_NDV" for v in rets)
+    res.inst(f"IntegerData.nan_value -> {[unparse(v) for v in rets]}", ok=ok)
     if not ok:
-        res.find("IntegerData", "nan_value", f"nan_value returns {unparse(v)}", g.where if g else K.where, "padding uses a different code than the stored no-data value")
-    v, g = _single_return(p.cls("FloatData"), "nan_value")
-    ok = v is not None and unparse(v) in ("np.nan", "numpy.nan", "float('nan')")
-    res.inst(f"FloatData.nan_value -> {unparse(v)}", ok=ok)
+        res.find("IntegerData", "nan_value", f"nan_value returns {unparse(rets[0]) if rets else ''}", g.where if g else K.where, "padding uses a different code than the stored no-data value")
+    rets, g = _getter_returns(ctx, p.cls("FloatData"), "nan_value")
+    ok = bool(rets) and all(is_nan(v) for v in rets)
+    res.inst(f"FloatData.nan_value -> {[unparse(v) for v in rets]}", ok=ok)
     if not ok:
-        res.find("FloatData", "nan_value", f"nan_value returns {unparse(v)}", g.where if g else "", "float gaps are not NaN in memory")
-    v, g = _single_return(p.cls("BooleanData"), "ndv")
-    ok = isinstance(v, ast.Constant) and v.value == 0
-    res.inst(f"BooleanData.ndv -> {unparse(v)}", ok=ok)
+        res.find("FloatData", "nan_value", f"nan_value returns {unparse(rets[0]) if rets else ''}", g.where if g else "", "float gaps are not NaN in memory")
+    rets, g = _getter_returns(ctx, p.cls("BooleanData"), "ndv")
+    ok = bool(rets) and all((isinstance(v, ast.Constant) and v.value == 0) or fold(p, g.module, v) == 0 for v in rets)
+    res.inst(f"BooleanData.ndv -> {[unparse(v) for v in rets]}", ok=ok)
     if not ok:
-        res.find("BooleanData", "ndv", f"ndv returns {unparse(v)}", g.where if g else "", "boolean gaps are not stored as 0")
-    # reader / writer use the shared constant
+        res.find("BooleanData", "ndv", f"ndv returns {unparse(rets[0]) if rets else ''}", g.where if g else "", "boolean gaps are not stored as 0")
+    # reader / writer use the shared constant (wherever the comparison / substitution lives: private helpers are expanded)
     for spec in ("H5Reader.fetch_values", "H5Reader.fetch_concatenated_values", "H5Writer.update_concatenated_field"):
-        fn = p.func(spec)
-        names = {n.id for n in ast.walk(fn.node) if isinstance(n, ast.Name) and n.id.endswith("_NDV")}
-        r = p.resolve_name(fn.module, "FLOAT_NDV")
-        ok = names == {"FLOAT_NDV"} and r and r[0] == "assign" and r[1][0] is shared
+        fn = ctx.view(spec, consts=False)
+        names = set().union(*[home.mentioned(f.module, f.node) for f in _with_private_callees(ctx, fn)])
+        ok = names == {"FLOAT_NDV"}
         res.inst(f"{spec} uses shared.FLOAT_NDV ({sorted(names)})", ok=bool(ok))
         if not ok:
             res.find(spec.split(".")[0], spec.split(".")[1], f"no-data constant(s) {sorted(names)}", fn.where, "reader and writer disagree on the float no-data code")
@@ -101,51 +142,231 @@ def rule_ndv(ctx) -> RuleResult:
             if fn in seen:
                 continue
             seen.add(fn)
+            L = None
             for c in ast.walk(fn.node):
                 if not isinstance(c, ast.Call):
                     continue
-                f = unparse(c.func)
+                f = call_name(c)
                 fill = None
                 dt = next((k.value for k in c.keywords if k.arg == "dtype"), None)
-                if f in ("np.full", "np.full_like") and len(c.args) >= 2:
+                if f in ("full", "full_like") and len(c.args) >= 2:
                     fill = c.args[1]
-                elif f in ("np.array", "np.asarray") and c.args:
+                    if dt is None and len(c.args) >= 3:
+                        dt = c.args[2]
+                elif f in ("array", "asarray") and c.args:
                     fill = c.args[0]
                 if fill is None or dt is None:
                     continue
-                if any(isinstance(x, ast.Attribute) and x.attr in ("nan_value", "ndv") for x in ast.walk(fill)) and ".dtype" in unparse(dt):
+                L = L or Locals(fn.node)
+                fill, dt = L.expand(fill), L.expand(dt)
+                if any(isinstance(x, ast.Attribute) and x.attr in ("nan_value", "ndv") for x in ast.walk(fill)) and \
+                        any(isinstance(x, ast.Attribute) and x.attr == "dtype" for x in ast.walk(dt)):
                     res.inst(f"{fn.qualname}:{c.lineno} no-data value cast to {unparse(dt)}", ok=False)
                     res.find(fn.cls.name, fn.name, f"no-data value cast to the input's dtype: {unparse(c)[:60]}", f"{fn.module.relpath}:{c.lineno}",
                              "the no-data code is forced into the dtype of the user's array: for narrow dtypes (int8, int16, ...) it wraps to another "
                              "number (0) and gaps become indistinguishable from real values")
-    # reference key 0 <-> "Unknown"
+    # reference key 0 <-> "Unknown": the label a raising guard compares with when the key is 0, and the label stored under key 0 by default
     rvm = p.cls("ReferenceValueMap")
-    vk = rvm.methods.get("_validate_key_value")
-    toks = {c.value for n in ast.walk(vk.node) if isinstance(n, ast.Compare) and "== 0" in unparse(n) or isinstance(n, ast.BoolOp) for c in ast.walk(n) if isinstance(c, ast.Constant) and isinstance(c.value, str)}
+    if "map" not in rvm.props or rvm.props["map"].setter is None:
+        raise AnalysisError("anchor ReferenceValueMap.map[setter] not found")
     st = rvm.props["map"].setter
-    wr = {unparse(a.value) for a in ast.walk(st.node) if isinstance(a, ast.Assign) and unparse(a.targets[0]).endswith("[0]")}
-    ok = "Unknown" in toks and wr == {"'Unknown'"}
-    res.inst(f"ReferenceValueMap: key 0 validated against {sorted(toks)}, defaulted to {sorted(wr)}", ok=ok)
+    sv = ctx.view(st)
+    nodes = [sv.node]
+    vk = rvm.methods.get("_validate_key_value")
+    if vk is not None:
+        nodes.append(ctx.view(vk).node)
+    toks = set()
+    for node in nodes:
+        for tests in _raise_guards(p, st.module, node):
+            if any(_is_int_const(s, 0) for t in tests for s in _cmp_sides(t, (ast.Eq, ast.NotEq, ast.Is, ast.IsNot))):
+                for t in tests:
+                    for s in _cmp_sides(t, (ast.Eq, ast.NotEq, ast.In, ast.NotIn)):
+                        for e in (s.elts if isinstance(s, (ast.Tuple, ast.List, ast.Set)) else [s]):
+                            if isinstance(e, ast.Constant) and isinstance(e.value, str):
+                                toks.add(e.value)
+    L = Locals(sv.node)
+    wr = set()
+    for a in ast.walk(sv.node):
+        v = None
+        if isinstance(a, ast.Assign) and len(a.targets) == 1 and isinstance(a.targets[0], ast.Subscript) and _is_int_const(_literals_in(p, st.module, sv.node, L.expand(a.targets[0].slice)), 0):
+            v = a.value
+        elif isinstance(a, ast.Call) and call_name(a) == "setdefault" and len(a.args) == 2 and _is_int_const(_literals_in(p, st.module, sv.node, L.expand(a.args[0])), 0):
+            v = a.args[1]
+        if v is not None:
+            v = _literals_in(p, st.module, sv.node, L.expand(v))
+            wr.add(v.value if isinstance(v, ast.Constant) else unparse(v))
+    ok = "Unknown" in toks and wr == {"Unknown"}
+    res.inst(f"ReferenceValueMap: key 0 validated against {sorted(toks)}, defaulted to {sorted(map(str, wr))}", ok=ok)
     if not ok:
-        res.find("ReferenceValueMap", "map", f"key 0 label: validation {sorted(toks)} vs default {sorted(wr)}", st.where, "key 0 is not reserved for 'Unknown' consistently")
+        res.find("ReferenceValueMap", "map", f"key 0 label: validation {sorted(toks)} vs default {sorted(map(repr, wr))}", st.where, "key 0 is not reserved for 'Unknown' consistently")
     return res
 
 
-def _mask_assign(stmt, var, masks=("isnan",)):
-    """`var[np.isnan(var)] = X` (returns X) or var = np.where(np.isnan(var), X, var) / nan_to_num."""
-    if isinstance(stmt, ast.Assign) and len(stmt.targets) == 1:
-        t = stmt.targets[0]
-        if isinstance(t, ast.Subscript) and unparse(t.value) == var and any(m in unparse(t.slice) for m in masks) and var in unparse(t.slice):
-            return stmt.value
-        if isinstance(t, ast.Name) and t.id == var and isinstance(stmt.value, ast.Call):
-            f = unparse(stmt.value.func)
-            if f in ("np.where",) and len(stmt.value.args) == 3 and any(m in unparse(stmt.value.args[0]) for m in masks):
-                return stmt.value.args[1]
-            if f in ("np.nan_to_num",):
-                for k in stmt.value.keywords:
-                    if k.arg == "nan":
-                        return k.value
+def _private_callee(p, fn, call):
+    """The package function behind `cls._h(..)` / `self._h(..)` / `Class._h(..)` / `_h(..)` — for private helpers the normaliser had to
+    leave as calls (e.g. because they forward **kwargs)."""
+    f = call.func
+    name = f.attr if isinstance(f, ast.Attribute) else getattr(f, "id", None)
+    if not name or not name.startswith("_") or name.startswith("__"):
+        return None
+    if isinstance(f, ast.Attribute) and isinstance(f.value, ast.Name):
+        owner = None
+        if fn.cls is not None and f.value.id in ("self", "cls", fn.self_name):
+            owner = fn.cls
+        else:
+            r = p.resolve_name(fn.module, f.value.id)
+            owner = r[1] if r and r[0] == "class" else None
+        m = owner.lookup(name) if owner is not None else None
+        return m[2] if m and m[1] == "method" else None
+    if isinstance(f, ast.Name):
+        r = p.resolve_name(fn.module, name)
+        return r[1] if r and r[0] == "func" else None
     return None
+
+
+def _with_private_callees(ctx, v, _depth=0) -> list:
+    """The function (private helpers expanded) and the private helpers that had to stay calls, transitively."""
+    out = [v]
+    if _depth < 2:
+        for c in ast.walk(v.node):
+            callee = _private_callee(ctx.p, v, c) if isinstance(c, ast.Call) else None
+            if callee is not None and callee.node is not v.node:
+                for f in _with_private_callees(ctx, ctx.view(callee, consts=False), _depth + 1):
+                    if all(f.node is not o.node for o in out):
+                        out.append(f)
+    return out
+
+
+def _dataset_sinks(ctx, v, _depth=0) -> list:
+    """(function to look at, call in it, expression stored as the dataset's data, dtype given explicitly) for every h5py
+    `create_dataset(.., data=..)` the function performs itself or in its expanded private helpers.  For a private helper the normaliser
+    left as a call: the caller's argument when the helper stores a parameter as it came, the helper's own frame otherwise."""
+    out = []
+    for c in ast.walk(v.node):
+        if not isinstance(c, ast.Call):
+            continue
+        if isinstance(c.func, ast.Attribute) and c.func.attr == "create_dataset" and any(k.arg == "data" for k in c.keywords):
+            out.append((v, c, next(k.value for k in c.keywords if k.arg == "data"), any(k.arg == "dtype" for k in c.keywords)))
+            continue
+        callee = _private_callee(ctx.p, v, c) if _depth < 2 else None
+        if callee is None or callee.node is v.node:
+            continue
+        cv = ctx.view(callee, consts=False)
+        params = list(cv.params)
+        if callee.kind in ("method", "classmethod") and isinstance(c.func, ast.Attribute):
+            params = params[1:]
+        bound = dict(zip(params, c.args))
+        bound.update({k.arg: k.value for k in c.keywords if k.arg})
+        CL = Locals(cv.node)
+        for frame, c2, data, typed in _dataset_sinks(ctx, cv, _depth + 1):
+            d = CL.expand(data) if frame is cv else None
+            if isinstance(d, ast.Name) and d.id in bound and not CL.defs.get(d.id) and d.id not in CL.opaque:
+                out.append((v, c, bound[d.id], typed))
+            else:
+                out.append((frame, c2, data, typed))
+    return out
+
+
+def _cfg_nodes_of(g, target) -> list:
+    """CFG nodes whose own expression / simple statement contains the node `target`."""
+    out = []
+    for n in g.nodes:
+        a = n.ast
+        if a is None or isinstance(a, list):
+            continue
+        if n.kind == "with":
+            parts = [it.context_expr for it in a.items]
+        elif n.kind == "except":
+            parts = [a.type] if a.type is not None else []
+        elif n.kind == "def":
+            parts = []
+        else:
+            parts = [a]
+        if any(x is target for part in parts for x in ast.walk(part)):
+            out.append(n)
+    return out
+
+
+def _is_ndv_source(home, mod, expr) -> bool:
+    """The expression reads a no-data code: `<entity>.ndv`, `getattr(<entity>, "ndv", ..)` or one of the shared constants."""
+    for x in ast.walk(expr):
+        if isinstance(x, ast.Attribute) and x.attr == "ndv":
+            return True
+        if isinstance(x, ast.Call) and getattr(x.func, "id", None) == "getattr" and len(x.args) >= 2 and isinstance(x.args[1], ast.Constant) and x.args[1].value == "ndv":
+            return True
+        if isinstance(x, (ast.Name, ast.Attribute)) and home.which(mod, x):
+            return True
+    return False
+
+
+def _array_names(L, data) -> set:
+    d = data if isinstance(data, ast.Name) else L.expand(data)
+    return L.alias_class(d.id) if isinstance(d, ast.Name) else set()
+
+
+def _assumed(home, mod, L, names, test, _depth=0):
+    """Three-valued value of a condition for an entity that has a no-data code and an array (called one of `names`) that has NaNs:
+    `<ndv source> is None` is False, `np.isnan(X).any()` / `np.any(np.isnan(X))` is True, named conditions are looked through,
+    anything else is unknown (None)."""
+    if _depth > 6:
+        return None
+    if isinstance(test, ast.UnaryOp) and isinstance(test.op, ast.Not):
+        v = _assumed(home, mod, L, names, test.operand, _depth + 1)
+        return None if v is None else not v
+    if isinstance(test, ast.BoolOp):
+        vals = [_assumed(home, mod, L, names, v, _depth + 1) for v in test.values]
+        if isinstance(test.op, ast.And):
+            return False if any(v is False for v in vals) else (True if all(v is True for v in vals) else None)
+        return True if any(v is True for v in vals) else (False if all(v is False for v in vals) else None)
+    if isinstance(test, ast.Compare) and len(test.ops) == 1 and isinstance(test.ops[0], (ast.Is, ast.IsNot)) \
+            and isinstance(test.comparators[0], ast.Constant) and test.comparators[0].value is None:
+        if _is_ndv_source(home, mod, L.expand(test.left)):
+            return isinstance(test.ops[0], ast.IsNot)
+        return None
+    if isinstance(test, ast.Call) and call_name(test) == "any":
+        inner = test.func.value if isinstance(test.func, ast.Attribute) and not test.args else (test.args[0] if len(test.args) == 1 else None)
+        if inner is not None and is_isnan_of(L.expand(inner, names), names):
+            return True
+        return None
+    if isinstance(test, ast.Name):
+        d = L.single(test.id)
+        return _assumed(home, mod, L, names, d, _depth + 1) if d is not None else None
+    if isinstance(test, ast.NamedExpr):
+        return _assumed(home, mod, L, names, test.value, _depth + 1)
+    return None
+
+
+def _reach_assuming(g, value, avoid=()):
+    """CFG nodes reachable from the entry when a test whose condition has a known value (True / False) only continues on that branch."""
+    seen, todo = set(), [g.entry]
+    while todo:
+        n = todo.pop()
+        if n in seen or n in avoid:
+            continue
+        seen.add(n)
+        v = value(n.ast) if n.kind == "test" else None
+        for m, lab in n.succ:
+            if (v is True and lab == "false") or (v is False and lab == "true"):
+                continue
+            todo.append(m)
+    return seen
+
+
+def _nan_substitutions(L, fr, data):
+    """([(statement, value stored where the array is NaN)], value of an `np.where(isnan(X), V, X)` written in the call itself) for the
+    array `data` names in function `fr` (through plain copies); data None: any array of the function."""
+    stores = masked_stores(fr.node, L)
+    if data is None:
+        return [(s, v) for s, x, m, v in stores if is_isnan_of(m, L.alias_class(x))], None
+    names = _array_names(L, data)
+    subst = [(s, v) for s, x, m, v in stores if x in names and is_isnan_of(m, L.alias_class(x))]
+    dx = L.expand(data)
+    inline = None
+    if isinstance(dx, ast.Call) and call_name(dx) == "where" and len(dx.args) == 3 and isinstance(dx.args[2], ast.Name):
+        same = L.alias_class(dx.args[2].id)
+        if is_isnan_of(L.expand(dx.args[0], same), same):
+            inline = dx.args[1]
+    return subst, inline
 
 
 def rule_ndvmap(ctx) -> RuleResult:
@@ -158,99 +379,176 @@ def rule_ndvmap(ctx) -> RuleResult:
         floor=5,
     )
     p = ctx.p
-    wd = p.func("H5Writer.write_data_values")
-    # the numeric branch: the create_dataset whose data= is the deep-copied out_values
-    cds = [c for c in ast.walk(wd.node) if isinstance(c, ast.Call) and isinstance(c.func, ast.Attribute) and c.func.attr == "create_dataset"]
-    numeric = [c for c in cds if any(k.arg == "data" and isinstance(k.value, ast.Name) and k.value.id not in ("values",) for k in c.keywords)]
+    shared = p.modules.get("geoh5py.shared")
+    if shared is None:
+        raise AnalysisError("anchor module geoh5py.shared not found")
+    home = NdvHome(p, shared)
+    wd = ctx.view("H5Writer.write_data_values", consts=False)
+    # the numeric branch: the dataset(s) created without an explicit (string) dtype — the text branches name dtype= / shape=(1,)
+    numeric = [(fr, c, d) for fr, c, d, typed in _dataset_sinks(ctx, wd) if not typed]
     if not numeric:
         raise AnalysisError("H5Writer.write_data_values: numeric create_dataset not found")
-    for c in numeric:
-        var = next(k.value.id for k in c.keywords if k.arg == "data")
-        # innermost statement list that contains the create_dataset statement directly
-        blk = None
-        for n in ast.walk(wd.node):
-            for b in (getattr(n, "body", None), getattr(n, "orelse", None)):
-                if isinstance(b, list) and any(isinstance(s, ast.Expr) and s.value is c for s in b):
-                    blk = b
-        if blk is None:
-            raise AnalysisError("H5Writer.write_data_values: block of the numeric create_dataset not found")
-        idx = next(i for i, s in enumerate(blk) if isinstance(s, ast.Expr) and s.value is c)
-        subst = None
-        for s in blk[:idx]:
-            for sub in ast.walk(s):
-                v = _mask_assign(sub, var) if isinstance(sub, ast.stmt) else None
-                if v is not None:
-                    subst = (v, s)
-        ok = subst is not None and "ndv" in unparse(subst[0]).lower()
-        guard = unparse(subst[1].test) if subst and isinstance(subst[1], ast.If) else None
-        res.inst(f"write_data_values: {var}[isnan] = {unparse(subst[0]) if subst else None} before create_dataset (under `{guard}`)", nontrivial=True, ok=ok)
+    for fr, c, data in numeric:
+        L = Locals(fr.node)
+        subst, inline = _nan_substitutions(L, fr, data)
+        vals = [L.expand(v) for _s, v in subst] + ([L.expand(inline)] if inline is not None else [])
+        ok = bool(vals) and all(_is_ndv_source(home, fr.module, v) for v in vals)
+        res.inst(f"write_data_values: <array>[isnan] = {[unparse(v) for v in vals]} before create_dataset", nontrivial=True, ok=ok)
         if not ok:
-            res.find("H5Writer", "write_data_values", "raw NaN reaches create_dataset on the numeric branch", f"{wd.module.relpath}:{c.lineno}",
+            res.find("H5Writer", "write_data_values", "raw NaN reaches create_dataset on the numeric branch", f"{fr.module.relpath}:{c.lineno}",
                      "NaN is stored as NaN instead of the format's no-data code: geoh5py still reads it back, Geoscience ANALYST does not")
-        if guard is not None and "ndv" not in guard:
-            res.find("H5Writer", "write_data_values", f"NaN substitution guarded by `{guard}`", f"{wd.module.relpath}:{subst[1].lineno}",
-                     "the substitution is skipped for some numeric data")
-    uc = p.func("H5Writer.update_concatenated_field")
-    # whatever the local holding the channel's values is called: every `X[np.isnan(X)] = ...` / np.where form on a local of the function
-    uc_locals = {t.id for a in ast.walk(uc.node) if isinstance(a, ast.Assign) for t in a.targets if isinstance(t, ast.Name)}
-    subs = [_mask_assign(s, v) for s in ast.walk(uc.node) if isinstance(s, ast.stmt) for v in sorted(uc_locals)]
-    subs = [s for s in subs if s is not None]
-    ok = bool(subs) and all(unparse(s) == "FLOAT_NDV" for s in subs)
-    res.inst(f"update_concatenated_field: values[isnan] = {[unparse(s) for s in subs]}", nontrivial=True, ok=ok)
+        elif inline is None:
+            # path fact: given that the entity has a no-data code (`<ndv source> is not None`) and the array has NaNs (`isnan(X).any()`),
+            # every path to the dataset creation passes the substitution
+            g = CFG(fr.node)
+            names = _array_names(L, data)
+            snodes = {n for s, _v in subst for n in g.nodes if n.ast is s}
+            dnodes = _cfg_nodes_of(g, c)
+            if not dnodes:
+                raise AnalysisError("H5Writer.write_data_values: numeric create_dataset not on the control-flow graph")
+            seen = _reach_assuming(g, lambda t: _assumed(home, fr.module, L, names, t), avoid=snodes)
+            if any(n in seen for n in dnodes):
+                res.find("H5Writer", "write_data_values", "NaN substitution can be skipped on the numeric branch", f"{fr.module.relpath}:{subst[0][0].lineno}",
+                         "the substitution is skipped for some numeric data")
+    uc = ctx.view("H5Writer.update_concatenated_field", consts=False)
+    # the array that reaches the dataset (whatever it is called, wherever the conversion lives); every local if the creation is out of sight
+    sinks = [(fr, d) for fr, _c, d, typed in _dataset_sinks(ctx, uc) if not typed]
+    subs = []
+    for fr, d in sinks or [(uc, None)]:
+        L = Locals(fr.node)
+        subst, inline = _nan_substitutions(L, fr, d)
+        subs += [(fr, L.expand(v)) for _s, v in subst] + ([(fr, L.expand(inline))] if inline is not None else [])
+    ok = bool(subs) and all(home.which(fr.module, s) == "FLOAT_NDV" for fr, s in subs)
+    res.inst(f"update_concatenated_field: values[isnan] = {[unparse(s) for _f, s in subs]}", nontrivial=True, ok=ok)
     if not ok:
         res.find("H5Writer", "update_concatenated_field", "float NaN not replaced by FLOAT_NDV", uc.where, "concatenated float data store raw NaN")
     for spec in ("H5Reader.fetch_values", "H5Reader.fetch_concatenated_values"):
-        fn = p.func(spec)
+        fn = ctx.view(spec, consts=False)
         found = False
-        var = "<array>"
-        for a in ast.walk(fn.node):
-            if isinstance(a, ast.Assign) and isinstance(a.targets[0], ast.Subscript) and isinstance(a.targets[0].value, ast.Name) and unparse(a.value) in ("np.nan", "numpy.nan"):
-                var = a.targets[0].value.id
-                mask = a.targets[0].slice
-                mtxt = unparse(mask)
-                if isinstance(mask, ast.Name):
-                    for d in ast.walk(fn.node):
-                        if isinstance(d, ast.Assign) and unparse(d.targets[0]) == mask.id:
-                            mtxt = unparse(d.value)
-                if "== FLOAT_NDV" in mtxt and var in mtxt:
+        for fr in _with_private_callees(ctx, fn):
+            L = Locals(fr.node)
+            for _s, x, m, v in masked_stores(fr.node, L):
+                other = eq_other_side(m, L.alias_class(x))
+                if other is not None and home.which(fr.module, other) == "FLOAT_NDV" and is_nan(L.expand(v)):
                     found = True
         res.inst(f"{spec}: <array>[<array> == FLOAT_NDV] = np.nan", nontrivial=True, ok=found)
         if not found:
             res.find("H5Reader", spec.split(".")[1], "FLOAT_NDV not mapped back to NaN", fn.where, "stored gaps come back as 1.17e-38 instead of NaN")
-    fv = p.func("NumericData.format_values")
-    subs = [_mask_assign(s, fv.params[1]) for s in ast.walk(fv.node) if isinstance(s, ast.stmt)]
-    subs = [s for s in subs if s is not None]
-    ok = bool(subs) and all(unparse(s) == "self.nan_value" for s in subs)
-    res.inst(f"NumericData.format_values: values[isnan] = {[unparse(s) for s in subs]}", ok=ok)
+    fv = ctx.view("NumericData.format_values", consts=False)
+    if len(fv.params) < 2:
+        raise AnalysisError("NumericData.format_values: values parameter not found")
+    subs = []
+    for fr in _with_private_callees(ctx, fv):
+        L = Locals(fr.node)
+        names = L.alias_class(fv.params[1]) if fr is fv else None  # in a helper that stayed a call: whichever array it fills
+        subs += [(fr, L.expand(v)) for _s, x, m, v in masked_stores(fr.node, L) if (names is None or x in names) and is_isnan_of(m, L.alias_class(x))]
+    ok = bool(subs) and all(_is_self_attr(fr, s, "nan_value") for fr, s in subs)
+    res.inst(f"NumericData.format_values: values[isnan] = {[unparse(s) for _f, s in subs]}", ok=ok)
     if not ok:
         res.find("NumericData", "format_values", "NaN not replaced by self.nan_value", fv.where, "integer / referenced data keep NaN, which the int32 cast turns into an arbitrary number")
     return res
 
 
+def _codec_of(p, fn, L, expr):
+    """The codec a call names: a string literal, or a name bound once (local, module or class level) to one.  None: not decidable here."""
+    e = L.expand(expr)
+    if isinstance(e, ast.Constant):
+        return e.value if isinstance(e.value, str) else None
+    r = None
+    if isinstance(e, ast.Name):
+        r = p.resolve_name(fn.module, e.id)
+    elif isinstance(e, ast.Attribute) and isinstance(e.value, ast.Name):
+        if fn.cls is not None and e.value.id in ("self", "cls", fn.self_name):
+            for c in fn.cls.mro:
+                if not isinstance(c, str) and e.attr in c.class_assigns:
+                    v = c.class_assigns[e.attr][0]
+                    return v.value if isinstance(v, ast.Constant) and isinstance(v.value, str) else None
+        else:
+            r = p.resolve_expr(fn.module, e)
+    if r and r[0] == "assign" and isinstance(r[1][1], ast.Constant) and isinstance(r[1][1].value, str):
+        return r[1][1].value
+    return None
+
+
 def rule_codec(ctx) -> RuleResult:
-    res = RuleResult("C08.CODEC", "C08", "every encode / decode site names the same codec (utf-8, explicitly or by default)", floor=10)
+    # floor: sites, not spellings — ten identical `x.encode()` calls folded into one helper are one site; both directions must be in sight
+    res = RuleResult("C08.CODEC", "C08", "every encode / decode site names the same codec (utf-8, explicitly or by default)", floor=5)
     p = ctx.p
+    kinds_seen = set()
     for fn in p.all_functions():
+        L = None
         for c in ast.walk(fn.node):
             if not (isinstance(c, ast.Call) and isinstance(c.func, ast.Attribute) and c.func.attr in ("encode", "decode")):
                 continue
+            L = L or Locals(fn.node)
+            kinds_seen.add(c.func.attr)
             base = unparse(c.func.value)
             args = list(c.args)
             if base in ("np.char", "numpy.char"):
                 args = args[1:]
             codec = None
-            if args and isinstance(args[0], ast.Constant) and isinstance(args[0].value, str):
-                codec = args[0].value
+            if args:
+                codec = _codec_of(p, fn, L, args[0])
             for k in c.keywords:
-                if k.arg == "encoding" and isinstance(k.value, ast.Constant):
-                    codec = k.value.value
+                if k.arg == "encoding":
+                    codec = _codec_of(p, fn, L, k.value) or codec
             norm = (codec or "utf-8").lower().replace("_", "-")
             ok = norm in ("utf-8", "utf8")
             res.inst(f"{fn.qualname}:{c.lineno} {unparse(c.func)[:30]} codec={codec or 'default'}", ok=ok)
             if not ok:
                 res.find(fn.cls.name if fn.cls else fn.module.short, fn.prop or fn.name, f"{c.func.attr} with codec {codec!r}", f"{fn.module.relpath}:{c.lineno}",
                          "text written with one codec is read with another: non-ASCII strings change or raise")
+    if kinds_seen != {"encode", "decode"}:
+        raise AnalysisError(f"C08.CODEC: only {sorted(kinds_seen)} sites found (the matcher lost the encode or the decode side)")
     return res
+
+
+_FRACTION = ("modf", "% 1", "is_integer", "np.floor", "np.round")
+_RANGE32 = ("iinfo", "2147483647", "INTEGER_NDV", "2 ** 31", "2**31")
+
+
+def _zero_one_collection(test) -> bool:
+    """The condition mentions the literal collection {0, 1} (set, list or tuple, any order)."""
+    for x in ast.walk(test):
+        if isinstance(x, (ast.Set, ast.List, ast.Tuple)) and len(x.elts) == 2 and all(isinstance(e, ast.Constant) for e in x.elts) \
+                and sorted(int(e.value) if isinstance(e.value, (bool, int)) else -1 for e in x.elts) == [0, 1]:
+            return True
+    return False
+
+
+def _casts(fn_node, L):
+    """(call, text of the target dtype) of every cast of an array: X.astype(T) / X.astype(dtype=T) / np.asarray(X, dtype=T) / np.array(X, dtype=T)."""
+    for c in ast.walk(fn_node):
+        if not isinstance(c, ast.Call):
+            continue
+        nm = call_name(c)
+        kw = next((k.value for k in c.keywords if k.arg == "dtype"), None)
+        if nm == "astype" and isinstance(c.func, ast.Attribute):
+            t = c.args[0] if c.args else kw
+        elif nm in ("asarray", "array") and kw is not None:
+            t = kw
+        else:
+            continue
+        yield c, (unparse(L.expand(t)) if t is not None else "")
+
+
+def _deciding_guards(g, cast_nodes) -> list:
+    """Conditions that decide between raising and casting: tests with one branch from which an exception is raised and no cast can be
+    reached any more, while the other branch still reaches a cast.  (Guard clause, nested ifs, if / else and the positive early return
+    `if ok: return cast` / `raise` all give the same answer.)"""
+    out = []
+    raises = [n for n in g.nodes if n.kind == "raise"]
+    for t in g.nodes:
+        if t.kind != "test":
+            continue
+        side = {}
+        for lab in ("true", "false"):
+            side[lab] = reach(g, [m for m, l in t.succ if l == lab])
+        for lab, other in (("true", "false"), ("false", "true")):
+            if any(r in side[lab] for r in raises) and not any(c in side[lab] for c in cast_nodes) and any(c in side[other] for c in cast_nodes):
+                out.append(t)
+                break
+    return out
 
 
 def rule_narrow(ctx) -> RuleResult:
@@ -270,22 +568,24 @@ def rule_narrow(ctx) -> RuleResult:
         if fn is None or fn in seen:
             continue
         seen.add(fn)
-        casts = [c for c in ast.walk(fn.node) if isinstance(c, ast.Call) and isinstance(c.func, ast.Attribute) and c.func.attr == "astype"]
-        guards = [unparse(i.test) for i in ast.walk(fn.node) if isinstance(i, ast.If) and any(isinstance(s, ast.Raise) for s in i.body)]
-        gtxt = " ; ".join(guards)
-        for c in casts:
-            tgt = unparse(c.args[0]) if c.args else ""
+        v = ctx.view(fn)
+        L = Locals(v.node)
+        g = CFG(v.node)
+        for c, tgt in _casts(v.node, L):
+            cnodes = _cfg_nodes_of(g, c)
+            tests = [_literals_in(p, fn.module, v.node, L.expand(t.ast)) for t in _deciding_guards(g, cnodes)]
+            gtxt = " ; ".join(unparse(t) for t in tests)
             need = []
             if "float" in tgt:
-                need = [("numeric dtype", ("issubdtype", "np.number", "dtype.kind"))]
+                need = [("numeric dtype", ("issubdtype", "np.number", "dtype.kind"), None)]
             elif "int32" in tgt or tgt in ("int", "'int32'"):
-                need = [("fractional part", ("modf", "% 1", "is_integer", "np.floor", "np.round")), ("32-bit range", ("iinfo", "2147483647", "INTEGER_NDV", "2 ** 31", "2**31"))]
+                need = [("fractional part", _FRACTION, None), ("32-bit range", _RANGE32, None)]
             elif "bool" in tgt:
-                need = [("membership in {0, 1}", ("{0, 1}", "isin", "[0, 1]"))]
+                need = [("membership in {0, 1}", ("{0, 1}", "isin", "[0, 1]"), _zero_one_collection)]
             elif "uint32" in tgt:
-                need = [("fractional part", ("modf", "% 1")), ("unsigned 32-bit range", ("iinfo", "4294967295", "< 0"))]
-            for label, toks in need:
-                ok = any(t in gtxt for t in toks)
+                need = [("fractional part", ("modf", "% 1"), None), ("unsigned 32-bit range", ("iinfo", "4294967295", "< 0"), None)]
+            for label, toks, pred in need:
+                ok = any(t in gtxt for t in toks) or (pred is not None and any(pred(t) for t in tests))
                 res.inst(f"{K.name}.format_type: astype({tgt}) guarded against {label}: {ok} (guards: {gtxt[:80]})", nontrivial=True, ok=ok)
                 if not ok:
                     res.find(fn.cls.name, "format_type", f"astype({tgt}) without a {label} guard", f"{fn.module.relpath}:{c.lineno}",
